@@ -474,7 +474,10 @@ class HttpProxyPlugin(HttpProtocolHandlerPlugin):
                         assert self.pipeline_request is not None
                         r = plugin.handle_client_request(self.pipeline_request)
                         if r is None:
-                            return None
+                            # Only this request is dropped, the next one
+                            # starts with a parser of its own.
+                            self.pipeline_request = None
+                            return remainder
                         self.pipeline_request = r
                     assert self.pipeline_request is not None
                     # Same treatment as the first request on the connection:
